@@ -112,6 +112,10 @@ fn paths() -> Vec<PathSpec> {
         // hairpins: near-reversals whose uncut miter would lie far outside the working range
         p(vec![M(10., 10.), L(265., 10.), L(10., 11.)]),
         p(vec![M(0., 0.), L(2000., 0.), L(0., 0.1), Z]),
+        // segments of subnormal length (1/len overflows), with both components non-zero
+        p(vec![M(0., 0.), L(1e-40, 1e-40)]),
+        p(vec![M(0., 0.), L(1e-40, 1e-40), L(2.5, 1.0)]),
+        p(vec![M(1., 1.), L(1.0 + 1e-7, 1.0), L(1e-41, 2e-41), Z]),
     ]
 }
 
@@ -589,12 +593,18 @@ fn seq_alphabet() -> Vec<Op> {
 
 fn sequences(len: usize, out: &mut Sink) {
     let alpha = seq_alphabet();
-    fn rec(alpha: &[Op], seq: &mut Vec<usize>, open: &mut Vec<bool>, len: usize, out: &mut Sink) {
+    // the clip stack and the layer stack are independent: a clip pushed before a layer may be
+    // popped while the layer is open ("pops match pushes" holds per stack); `nc` / `nl` count
+    // the open clips / layers, what is still open at the end is popped (layers first)
+    fn rec(alpha: &[Op], seq: &mut Vec<usize>, nc: usize, nl: usize, len: usize, out: &mut Sink) {
         if !seq.is_empty() {
             out.push_lazy(|| {
                 let mut ops: Vec<Op> = seq.iter().map(|&i| alpha[i].clone()).collect();
-                for l in open.iter().rev() {
-                    ops.push(if *l { Op::PopLayer } else { Op::PopClip });
+                for _ in 0..nl {
+                    ops.push(Op::PopLayer);
+                }
+                for _ in 0..nc {
+                    ops.push(Op::PopClip);
                 }
                 Scene { w: 3, h: 2, dst: Dst::Distinct, ops }
             });
@@ -603,47 +613,31 @@ fn sequences(len: usize, out: &mut Sink) {
             return;
         }
         for (oi, op) in alpha.iter().enumerate() {
-            let mut pushed = None;
+            let (mut c, mut l) = (nc, nl);
             match op {
                 Op::PopLayer => {
-                    if open.last() != Some(&true) {
+                    if nl == 0 {
                         continue;
                     }
-                    pushed = Some((false, open.pop().unwrap()));
+                    l -= 1;
                 }
                 Op::PopClip => {
-                    // popping an empty clip stack is allowed and harmless; popping under an
-                    // open layer's own clips only when the top is a clip
-                    if open.last() == Some(&true) {
+                    // popping an empty clip stack is harmless, but only tried with no layer open
+                    if nc == 0 && nl > 0 {
                         continue;
                     }
-                    if let Some(t) = open.pop() {
-                        pushed = Some((false, t));
-                    }
+                    c = c.saturating_sub(1);
                 }
-                Op::PushLayer(..) => {
-                    open.push(true);
-                    pushed = Some((true, true));
-                }
-                Op::PushClip(_) | Op::PushClipRect(..) => {
-                    open.push(false);
-                    pushed = Some((true, false));
-                }
+                Op::PushLayer(..) => l += 1,
+                Op::PushClip(_) | Op::PushClipRect(..) => c += 1,
                 _ => {}
             }
             seq.push(oi);
-            rec(alpha, seq, open, len, out);
+            rec(alpha, seq, c, l, len, out);
             seq.pop();
-            match pushed {
-                Some((true, _)) => {
-                    open.pop();
-                }
-                Some((false, t)) => open.push(t),
-                None => {}
-            }
         }
     }
-    rec(&alpha, &mut Vec::new(), &mut Vec::new(), len, out);
+    rec(&alpha, &mut Vec::new(), 0, 0, len, out);
 }
 
 // ------------------------------------------------------------------ execution
